@@ -58,7 +58,7 @@ def gen_sweep(rnd):
             decls.append([v, ["seq", [json.dumps(x) for x in vals]]])
             info["specs"].append("list" if isinstance(variables[v], list) else "values")
         elif r < 0.6:
-            vals = [rnd.choice(["p", "q", 1.5, True, None]) for _ in range(ln)]
+            vals = [rnd.choice(["p", "q", 1.5, True, None, float("inf"), -0.0, 10 ** 20]) for _ in range(ln)]
             variables[v] = vals
             decls.append([v, ["seq", [json.dumps(x) for x in vals]]])
             all_int = False
@@ -111,6 +111,16 @@ def gen_sweep(rnd):
                                                               "broadcast": broadcast}}}
     if el["kind"] != "probe":
         node["derive"]["parameter_sweep"]["collection"] = "TColl"
+    # defaults left out: `mode` defaults to combinatorial whatever `broadcast` says, `broadcast` defaults to false
+    if mode == "combinatorial" and rnd.random() < 0.5:
+        del node["derive"]["parameter_sweep"]["mode"]
+        info["specs"].append("mode-omitted" + ("+broadcast" if broadcast else ""))
+    if not broadcast and rnd.random() < 0.5:
+        del node["derive"]["parameter_sweep"]["broadcast"]
+    # the context may already hold a `<var>_values` key (an earlier sweep over the same name, a caller's leftover): it is rewritten
+    if rnd.random() < 0.15:
+        ctx0[rnd.choice(names) + "_values"] = ["stale", 0]
+        info["specs"].append("stale-values-key")
     config = {}
     for (pname, dflt) in el["params"]:
         if pname not in exprs_yaml:
@@ -138,6 +148,8 @@ def gen_sweep(rnd):
 def range_contract(spec, values):
     """Documented numeric contract of a range, checked in Python (support for the external part)."""
     steps = spec["steps"]
+    if any(isinstance(v, bool) or not isinstance(v, (int, float)) for v in values):
+        return f"published sequence {values!r} is not the materialised range (non-numeric entries)"
     if len(values) != steps:
         return f"length {len(values)} != steps {steps}"
     if not math.isclose(values[0], spec["lo"], rel_tol=1e-12, abs_tol=1e-12):
